@@ -33,16 +33,22 @@ def main():
         assert rc == 0, o
         env = dict(os.environ, PYTHONPATH=repo, PYTHONDONTWRITEBYTECODE='1', PYTHONHASHSEED='0', OMP_NUM_THREADS='2', MKL_NUM_THREADS='2', NUMBA_NUM_THREADS='4')
         denv = {k: v for k, v in env.items() if k != 'NUMBA_NUM_THREADS'}   # demos may set their own thread counts
-        rc0, o0 = sh('/venv/bin/python %s' % os.path.join(d, 'demo.py'), cwd=repo, env=denv, timeout=1800)
-        out['demo_unchanged_rc'] = rc0
+        has_demo = os.path.exists(os.path.join(d, 'demo.py'))
+        if has_demo:
+            rc0, o0 = sh('/venv/bin/python %s' % os.path.join(d, 'demo.py'), cwd=repo, env=denv, timeout=1800)
+            out['demo_unchanged_rc'] = rc0
         rc, o = sh('git apply %s' % os.path.join(d, 'patch.diff'), cwd=repo)
         out['patch_applies'] = rc == 0
         if rc != 0:
             out['apply_log'] = o[-500:]
             return out
-        rc1, o1 = sh('/venv/bin/python %s' % os.path.join(d, 'demo.py'), cwd=repo, env=denv, timeout=1800)
-        out['demo_patched_rc'] = rc1
-        out['demo_patched_tail'] = o1[-300:]
+        if has_demo:
+            rc1, o1 = sh('/venv/bin/python %s' % os.path.join(d, 'demo.py'), cwd=repo, env=denv, timeout=1800)
+            out['demo_patched_rc'] = rc1
+            out['demo_patched_tail'] = o1[-300:]
+        if os.path.exists(os.path.join(d, 'equiv.py')):   # behaviour-preserving refactorings ship an equivalence check
+            rce, oe = sh('/venv/bin/python %s' % os.path.join(d, 'equiv.py'), cwd=repo, env=denv, timeout=1800)
+            out['equiv_patched_rc'] = rce
         if do_tests:
             xml = os.path.join(work, 'junit.xml')
             sh('/venv/bin/python -m pytest -q -p no:cacheprovider --timeout=900 --continue-on-collection-errors '
